@@ -121,19 +121,23 @@ def lookupNotdef : Chain → Bytes → Nat
       | some v => v
       | none => lookupNotdef parents code
 
-/-- `File.LookupCID` -/
-def lookupCID : Chain → Bytes → Nat
-  | [], _ => 0
+/-- the loop of `File.LookupCID`: a mapping in the file or, failing that, in its ancestors -/
+def lookupMapped : Chain → Bytes → Option Nat
+  | [], _ => none
   | f :: parents, code =>
     match findSingle code f.singles with
-    | some v => v
+    | some v => some v
     | none =>
       match findRange code f.ranges with
-      | some v => v
-      | none =>
-        match parents with
-        | _ :: _ => lookupCID parents code
-        | [] => lookupNotdef [f] code
+      | some v => some v
+      | none => lookupMapped parents code
+
+/-- `File.LookupCID` (as of the fix 5f29395): mapped entries of the whole chain first, then the
+notdef entries starting with the file's own -/
+def lookupCID (chain : Chain) (code : Bytes) : Nat :=
+  match lookupMapped chain code with
+  | some v => v
+  | none => lookupNotdef chain code
 
 /-! ### `SetMapping` -/
 
@@ -200,7 +204,8 @@ def splitLast : Bytes → Option (Bytes × Nat)
   | [b] => some ([], b)
   | b :: bs => (splitLast bs).map fun p => (b :: p.1, p.2)
 
-/-- the first loop of `SetMapping`: encode, skip what the parent already maps, split -/
+/-- the first loop of `SetMapping`: encode, skip what a parent has a *mapping* for (as of the fix
+e336336: `f.Parent.lookupMapped`, notdef entries are not consulted), split -/
 def cidEntries (codec : Codec) (parents : Chain) : List (Nat × Nat) → Except CErr (List (Entry Nat))
   | [] => .ok []
   | (code, cid) :: rest =>
@@ -210,7 +215,7 @@ def cidEntries (codec : Codec) (parents : Chain) : List (Nat × Nat) → Except 
       match cidEntries codec parents rest with
       | .error e => .error e
       | .ok es =>
-        if !parents.isEmpty && lookupCID parents buf == cid then .ok es
+        if !parents.isEmpty && lookupMapped parents buf == some cid then .ok es
         else
           match splitLast buf with
           | none => .error .panic
